@@ -76,8 +76,16 @@ func classifyKnown(c *caseC07, f *harness.Failure) {
 
 // genProgram draws a G-prog program that the reference accepts (nil on a dead end).
 func genProgram(rt *rapid.T, h *harness.H) (*ast.Program, *gen.ProgGen) {
+	return genProgramOpt(rt, h, false)
+}
+
+func genProgramOpt(rt *rapid.T, h *harness.H, runtime bool) (*ast.Program, *gen.ProgGen) {
 	d := gen.D{T: rt}
 	g := gen.NewProgGen(d)
+	g.Recursive = true
+	if runtime {
+		g.PrintPct = 22
+	}
 	p := g.Program()
 	if p == nil {
 		h.S.Count("generator_dead_end")
